@@ -2,6 +2,7 @@ package rewriter
 
 import (
 	"go/ast"
+	"go/types"
 	"log"
 
 	"github.com/goghcrow/go-ast-matcher"
@@ -198,6 +199,18 @@ func (o *optimizer) optimizeBindCall() {
 	)
 }
 
+// f in `func(...args) { return f(...args) }` can only replace the literal when it is
+// a declared function or method of the very same type: a builtin or a conversion is
+// not a value, a func-typed variable may be reassigned before the literal is called
+func stableCallee(ctx astmatcher.Ctx, lit *ast.FuncLit) bool {
+	call := lit.Body.List[0].(*ast.ReturnStmt).Results[0].(*ast.CallExpr)
+	if _, isFunc := ctx.Callee(call).(*types.Func); !isFunc {
+		return false
+	}
+	litTy, funTy := ctx.TypeOf(lit), ctx.TypeOf(call.Fun)
+	return litTy != nil && funTy != nil && types.Identical(litTy, funTy)
+}
+
 // fun(...args) { return return f(...args) }  ==>  f
 func (o *optimizer) etaReduction() {
 	m := o.m.Matcher
@@ -259,7 +272,7 @@ func (o *optimizer) etaReduction() {
 		func(c *astmatcher.Cursor, ctx astmatcher.Ctx) {
 			params := ctx.Binds["params"].(*ast.FieldList).List
 			args := ctx.Binds["args"].(ExprsNode)
-			if matched(ctx, params, args) {
+			if matched(ctx, params, args) && stableCallee(ctx, c.Node().(*ast.FuncLit)) {
 				c.Replace(ctx.Binds["fun"])
 			}
 		},
